@@ -56,9 +56,9 @@ def variant(op):
 
 def pool_view(S):
     pv = {}
-    for name in ("X", "A2"):
+    for name in ("X", "A2", "X bad"):
         pv["met:" + name] = observe.metabolite_view(S.pool[name])
-    for name in ("r3", "r3c", "rdup"):
+    for name in ("r3", "r3c", "rdup", "r bad", "r badmet"):
         r = S.pool[name]
         pv["rxn:" + name] = observe.reaction_view(r)
         for m in r.metabolites:
